@@ -39,7 +39,7 @@ theorem arr_iterator_object_steps (T : Nat) (hT : legalThreshold T = true) (a : 
   unfold Arr.stepFlavour
   rw [hm]
   simp only
-  rw [stepN_tracks (IterAO.next_tracks hT a ctr h loaded) n it _ hR, hcm]
+  rw [stepN_tracks (IterAO.next_tracks a loaded) n it _ hR, hcm]
 
 /-- ARRAY ITERATOR OBJECTS, driven by the callback loops `Iterate`, `IterateReadOnly`, `IterateRange`,
     `IterateReadOnlyRange`, `IterateReadOnlyLoadedValues`: a callback that never stops receives
@@ -53,9 +53,22 @@ theorem arr_iterator_object_run (T : Nat) (hT : legalThreshold T = true) (a : Ar
     obtain ⟨it, hm, hR, _⟩ := IterAO.makeIterator_spec hT a ctr h loaded f hf
     unfold Arr.iterateFlavour
     rw [hm]
-    exact iterateLoop_tracks (IterAO.next_tracks hT a ctr h loaded) _ _ 0 it hR
+    exact iterateLoop_tracks (IterAO.next_tracks a loaded) _ _ 0 it hR
       (Nat.lt_succ_of_le (IterAO.expected_length_le a ctr h loaded f))
   exact ⟨hrun, fun k => C13Obj.arr_early_stop_eq_take a loaded f k _ hrun⟩
+
+/-- THE LOADED-VALUE ARRAY ITERATOR OBJECT on EVERY array, for EVERY set of loaded slabs (NO invariant
+    needed), call by call: the `i`-th `Next()` returns the `i`-th element of the structural traversal
+    `iterLoaded loaded` and nil from its end on.  (`arr_loaded_iterator_object_eq` of Props/C13.lean is the
+    run-to-the-end form of this; `arr_loaded_subset_is_sublist` / `arr_loaded_all_eq_toList` say what
+    `iterLoaded` is.) -/
+theorem arr_loaded_iterator_object_steps (a : Arr) (loaded : SlabID → Bool) (n : Nat) :
+    a.stepFlavour loaded .loaded n = .ok (false, answers (a.iterLoaded loaded) n) := by
+  obtain ⟨it, hm, hR, hcm⟩ := IterAO.makeLoaded_spec loaded a
+  unfold Arr.stepFlavour
+  rw [hm]
+  simp only
+  rw [stepN_tracks (IterAO.next_tracks a loaded) n it _ hR, hcm]
 
 /-- The objects and the list functions the other C13 theorems are stated for agree (so every one of
     those theorems is a theorem about the objects): read-only object = `iterReadOnly` = the
